@@ -270,6 +270,10 @@ func (c *MustacheParser) completeLexicalAnalysis() error {
 					tokenValue = variable
 				}
 
+				if operator1 == "!" {
+					tokenType = TokenComment
+				}
+
 				if operator1 == "" {
 					tokenType = TokenVariable
 					if closingBracket == "}}}" {
